@@ -6,6 +6,10 @@ Thin static rules (DESIGN.md §C20); that the output *is* the DFT is not decidab
                every libfft call, and the output buffer is allocated with self._outshape
  ffi           the libfft call sites of fft_plan.py conform to the C prototypes; restype is set for
                every pointer-returning function whose result is used
+ fftw-roles    the (plan, in, out) entry point is evaluated with callees inlined; the arguments reaching
+               fftw_plan_many_dft* are bound through the manual's parameter names (stubs/fftw3.h) and must be the
+               plan's rank/dims/ntransform, the right buffers, NULL embeddings, and strides/dists that tile
+               fft_in_size / fft_out_size; planner kind and sign match the transform
  shape-table   _inshape/_outshape for the 8 combinations of (r2c, batch_first, fwd) equal the decision
                table (r2c halves only the last axis, batch axis first/last, fwd/bwd swap); values are
                integer polynomials, so equivalent spellings of a dimension compare equal
@@ -596,6 +600,98 @@ def rule_layout(chk, tree, mod):
              "%r / %r" % (w[0], w[1], r[0], r[1]))
 
 
+FFTW_PLANNERS = {"fftw_plan_many_dft": "c2c", "fftw_plan_many_dft_r2c": "r2c", "fftw_plan_many_dft_c2r": "c2r"}
+IN_PTR, OUT_PTR = 1001, 2002  # stand-ins for the two buffers python hands to the initialiser
+
+
+def rule_fftw_roles(chk, tree):
+    """Role binding of the FFTW planning call: the C entry point that receives (plan, in, out) is evaluated (callees
+    inlined) for all 16 flag configurations; the arguments that reach `fftw_plan_many_dft*` are bound to the
+    parameter NAMES of the FFTW manual (stubs/fftw3.h) and must carry the value of that role:
+    rank/n/howmany = the plan's rank, dims and ntransform; in/out = the buffers (out = in for in-place plans);
+    (istride, idist) tile the input of fft_in_size elements and (ostride, odist) the output of fft_out_size elements;
+    the planner matches the transform type and `sign` the direction."""
+    tu = cfacts.TU(tree, CF)
+    protos = {d["name"]: [pn for pn, _ in d.get("params", [])] for d in tu.decls
+              if d.get("kind") == "FunctionProto" and d.get("name") in FFTW_PLANNERS}
+    text_has = "fftw_plan_many_dft" in tu.text
+    entries = []
+    for name in sorted(tu.funcs):
+        ps = tu.params(name)
+        if len(ps) == 3 and "fft_plan" in ps[0].get("type", {}).get("qualType", "") \
+                and all("*" in p_.get("type", {}).get("qualType", "") for p_ in ps[1:]):
+            entries.append(name)
+    if not protos or not text_has:
+        chk.note("fftw-roles", CFULL, "no fftw_plan_many_dft* call in this configuration of cider_fft.c (MKL backend?); "
+                 "role binding not checked")
+        return
+    need = ("rank", "n", "howmany", "in", "inembed", "istride", "idist", "out", "onembed", "ostride", "odist")
+    for nm, pl in protos.items():
+        if any(x not in pl for x in need):
+            raise core.AnalysisError("stubs/fftw3.h: prototype of %s lacks the manual's parameter names" % nm)
+    n_cfg = 0
+    for r2c, inplace, fwd, bf in itertools.product([True, False], repeat=4):
+        cfgs = "r2c=%d inplace=%d fwd=%d batch_first=%d" % (r2c, inplace, fwd, bf)
+        found = None
+        for ent in entries:
+            plan = c_plan(tu, r2c, inplace, fwd, bf)
+            pn = [p_.get("name") for p_ in tu.params(ent)]
+            try:
+                ev = cpoly.CEval(tu, ent, {pn[0]: plan, pn[1]: IN_PTR, pn[2]: OUT_PTR}, inline=True).run()
+            except core.AnalysisError:
+                continue
+            calls = [(nm, a) for nm, a in ev.calls if nm in FFTW_PLANNERS]
+            if calls:
+                found = (ent, plan, calls)
+                break
+        if found is None:
+            raise core.AnalysisError("no C entry point (plan, in, out) reaches an fftw_plan_many_dft* call [%s]" % cfgs)
+        ent, plan, calls = found
+        F = plan.fields
+        line = tu.line_of(tu.func(ent))
+
+        def need_(cond, what, msg):
+            inst = "FFTW planning call: %s [%s]" % (what, cfgs)
+            if cond:
+                chk.ok("fftw-roles", inst)
+            else:
+                chk.violation("fftw-roles", CFULL, ent, "%s (%s)" % (what, cfgs), line, msg, instance=inst)
+
+        need_(len(calls) == 1, "one planner call", "%d planning calls are executed: %s" % (len(calls), [c[0] for c in calls]))
+        nm, argv = calls[0]
+        a = dict(zip(protos[nm], argv))
+        want_kind = "r2c" if (r2c and fwd) else ("c2r" if r2c else "c2c")
+        need_(FFTW_PLANNERS[nm] == want_kind, "planner matches the transform type",
+              "%s is called for a plan that is %s" % (nm, want_kind))
+        if nm == "fftw_plan_many_dft":
+            sg = a.get("sign")
+            need_(isinstance(sg, P) and sg.is_const() and (sg.const_value() < 0) == bool(fwd), "sign matches the direction",
+                  "sign = %r for fwd=%d (FFTW_FORWARD is -1)" % (sg, fwd))
+        dims = a.get("n")
+        ok_n = isinstance(dims, tuple) and dims[0] == "arrayfield" and \
+            [dims[1].arrays[dims[2]].get(k) for k in range(NDIM)] == list(DIMS)
+        need_(a.get("rank") == P.const(NDIM) and ok_n and a.get("howmany") == F["ntransform"], "rank / n / howmany",
+              "rank=%r n=%r howmany=%r; the plan has rank %d, dims (d0, d1, d2) and ntransform %r"
+              % (a.get("rank"), dims, a.get("howmany"), NDIM, F["ntransform"]))
+        want_out = IN_PTR if inplace else OUT_PTR
+        need_(a.get("in") == P.const(IN_PTR) and a.get("out") == P.const(want_out), "in / out buffers",
+              "in=%r out=%r; expected the input buffer and %s" % (a.get("in"), a.get("out"),
+                                                                 "the same buffer (in-place)" if inplace else "the output buffer"))
+        need_(a.get("inembed") == P.const(0) and a.get("onembed") == P.const(0), "inembed / onembed are NULL",
+              "inembed=%r onembed=%r: a non-NULL embedding changes the meaning of stride/dist (not modelled)"
+              % (a.get("inembed"), a.get("onembed")))
+        for side, st, di, size in (("input", a.get("istride"), a.get("idist"), F["fft_in_size"]),
+                                   ("output", a.get("ostride"), a.get("odist"), F["fft_out_size"])):
+            okk = isinstance(st, P) and isinstance(di, P)
+            top = ((F["ntransform"] - 1) * di + (size - 1) * st + 1) if okk else None
+            need_(okk and top == F["ntransform"] * size, "%s stride / dist tile the %s array" % (side[0] + "stride", side),
+                  "%s: stride=%r dist=%r put the last element at %r, the %s array of the plan holds ntransform * %r "
+                  "elements" % (nm, st, di, None if top is None else top - 1, side, size))
+        n_cfg += 1
+    chk.count("flag configurations whose FFTW planning call was evaluated", n_cfg)
+    chk.floor("fftw-roles", 56, "half of 16 configurations x 7 role facts")
+
+
 # ----------------------------------------------------------------------------
 def _analyse_own(chk):
     tree = chk.tree
@@ -634,6 +730,8 @@ def _analyse_own(chk):
     chk.guard(rule_shape_table, tree, mod)
     chk.rule("layout", "C plan evaluated symbolically: sizes vs python shapes, stride/dist tiling, copies stay inside caller array and plan buffer, padded rows agree")
     chk.guard(rule_layout, tree, mod)
+    chk.rule("fftw-roles", "arguments of the fftw_plan_many_dft* call carry the value of the role named in the FFTW manual")
+    chk.guard(rule_fftw_roles, tree)
     chk.floor("layout", 85, "16 flag configurations x (2 sizes + 2 tilings + 2x3 copy facts) + padded-row facts")
     chk.floor("ffi", 5, "10 libfft call sites in fft_plan.py")
     chk.floor("shape-guard", 3, "3 native calls + output allocation + parameter not re-bound")
@@ -713,6 +811,18 @@ def mutants(tree):
         Mutant("C: out-of-place real size forgets the first axis", CFULL,
                "            real_dist = 1;\n            for (int i = 0; i < ndim; i++) {", "            real_dist = 1;\n            for (int i = 1; i < ndim; i++) {",
                expect="layout"),
+        Mutant("C: c2r planner gets idist as output distance", CFULL,
+               "                (double *)plan->out, NULL, plan->stride, (int)plan->odist,",
+               "                (double *)plan->out, NULL, plan->stride, (int)plan->idist,", expect="fftw-roles"),
+        Mutant("C: r2c planner gets in/out buffers swapped", CFULL,
+               "plan->ndim, plan->dims, plan->ntransform, (double *)plan->in,\n                NULL, plan->stride, (int)plan->idist, (fftw_complex *)plan->out,",
+               "plan->ndim, plan->dims, plan->ntransform, (double *)plan->out,\n                NULL, plan->stride, (int)plan->idist, (fftw_complex *)plan->in,",
+               expect="fftw-roles"),
+        Mutant("C: c2c planner always forward", CFULL, "plan->fwd ? FFTW_FORWARD : FFTW_BACKWARD", "FFTW_FORWARD",
+               expect="fftw-roles"),
+        Mutant("C: in-place plan keeps a separate output buffer", CFULL,
+               "        plan->in = in_array;\n        plan->out = in_array;", "        plan->in = in_array;\n        plan->out = out_array;",
+               expect="fftw-roles"),
         Mutant("C: prototype of write_fft_input gains a size argument", CFULL,
                "void write_fft_input(fft_plan_t *plan, void *input) {", "void write_fft_input(fft_plan_t *plan, size_t n, void *input) {",
                expect="ffi"),
